@@ -1,12 +1,12 @@
 CONSTANTS
-  Refs = {1, 2}
-  PeaksCount = 2
+  McPeaksCount = 2
   Scores = {1, 2, 3}
-  Confs = {0, 1, 2}
-  MaxPeaks = 4
+  Confs = {1, 2}
   EmptySelectionAborts = FALSE
 INIT Init
 NEXT Next
 INVARIANT Inv_C07
 INVARIANT Inv_C05
+INVARIANT Inv_C16
+INVARIANT Inv_Protocol
 CHECK_DEADLOCK TRUE
